@@ -38,8 +38,11 @@ _q = seqs('aswBR', 3, minlen=2)
 _nested = ['%s^%s' % (o, i) for o in 'swBa' for i in 'swB'] + ['a%s^%s' % (o, i) for o in 'sw' for i in 'sw'] + ['%s^%sa' % (o, i) for o in 'sw' for i in 'sw']
 HARNESSES += [HH(x) for x in _q] + [HH(x) for x in _nested]
 HARNESSES += [HH(x, tiers=('thorough',)) for x in seqs('abswBR', 4, minlen=4)]
+# a serial queue targeting the real thread-bound MAIN queue (drained by the main thread through _dispatch_main_queue_callback_4CF), and the main queue addressed directly (level 1)
+_mq = ['a', 's', 'as', 'sa', 'a1', 's1', 'a1s1', 'a1a1', 'as1', 'a1s', 'aRs', 'w', 'w1', 'a1w1', 'B1', 'a1Ra1', 'sas', 'a1a1s1', 'a^s1', 'a1^s']
+HARNESSES += [HH(x, mainq=True) for x in _mq]
 ASSUMPTIONS = ['tier S: one call of one real state-machine function from an arbitrary 64-bit state word and arbitrary width in [1,4094]; before each atomic access to the word another thread may replace it by any value of the stated envelope (at most 2 times) - this models CAS interference',
                'QoS-override side paths (_dispatch_queue_override_self) are excluded: states with role BASE_ANON and max-QoS > 0 are outside the drain_try_lock lemma',
                'rmw retry loops unwound 5 times with unwinding assertions (2 interferences need at most 3 iterations)']
-LEVEL_TEXT = 'Tier S: all four ways of acquiring a queue (drain lock, barrier-sync fast path, sync reader width, async width) from all 2^64 state words and widths with bounded interference: the exclusion lemma (nothing is acquired while another owner holds the queue in barrier mode; the barrier-sync fast path only from the completely idle word; readers never overtake queued items). Tier H: all sequences up to length 3 (thorough 4) of async/sync/barrier_sync/async_and_wait/worker on a serial queue with FIFO and one-at-a-time assertions, plus nested histories in which a second client thread submits synchronously while an item is running (overlap would be an assertion failure). Main queue: every synchronous submission API on the real static _dispatch_main_q held by another thread (all other state bits arbitrary) enqueues and sleeps, never runs its item inline; on an idle serial queue every synchronous API in its function, plain-block and block-object (dispatch_block_create) form runs the item only while the caller is the exclusive owner (owner = caller, IN_BARRIER) and leaves the queue idle.'
-LEVEL_NOTE = 'Sequential histories; a second client that has to sleep ends its path (everything before is checked); interference bound 2; QoS override side paths excluded; main-queue vtable variant not exercised. The main queue is covered by the two tier-S lemmas only (held => never inline; idle => exclusive owner), not by histories through its runloop vtable.'
+LEVEL_TEXT = 'Tier S: all four ways of acquiring a queue (drain lock, barrier-sync fast path, sync reader width, async width) from all 2^64 state words and widths with bounded interference: the exclusion lemma (nothing is acquired while another owner holds the queue in barrier mode; the barrier-sync fast path only from the completely idle word; readers never overtake queued items). Tier H: all sequences up to length 3 (thorough 4) of async/sync/barrier_sync/async_and_wait/worker on a serial queue with FIFO and one-at-a-time assertions, plus nested histories in which a second client thread submits synchronously while an item is running (overlap would be an assertion failure). Main queue: every synchronous submission API on the real static _dispatch_main_q held by another thread (all other state bits arbitrary) enqueues and sleeps, never runs its item inline; on an idle serial queue every synchronous API in its function, plain-block and block-object (dispatch_block_create) form runs the item only while the caller is the exclusive owner (owner = caller, IN_BARRIER) and leaves the queue idle. Histories also on a serial queue targeting the real thread-bound MAIN queue and on the main queue itself: the run-loop poke is a recorded hand-off and the main thread (model thread 1) drains with the real _dispatch_main_queue_callback_4CF / _dispatch_main_queue_drain; synchronous items submitted from another thread are run remotely by the main thread.'
+LEVEL_NOTE = 'Sequential histories; a second client that has to sleep ends its path (everything before is checked); interference bound 2; QoS override side paths excluded; main-queue vtable variant not exercised. The main queue's run-loop handle (eventfd) is a stub: a poke is a recorded hand-off; dispatch_main() (unbinding the main queue) is not exercised in histories.'
